@@ -231,8 +231,12 @@ class TCPPacketGenerator(Device, OutMixIn):
             if self.flow.size is not None and self.next_seq >= self.flow.size:
                 return
 
-            while self.next_seq >= self.send_buffer:
-                # retrieving more packets from the application-layer flow
+            while self.send_buffer < self.next_seq + self.mss and (
+                self.flow.size is None or self.send_buffer < self.flow.size
+            ):
+                # retrieving more data from the application-layer flow until a
+                # full segment is buffered (or the flow is exhausted): a chunk
+                # smaller than the MSS alone can never be sent
                 if self.flow.arrival_dist:
                     # if the flow has an arrival distribution, wait for the next arrival
                     wait_time = self.flow.arrival_dist() - (
